@@ -9,14 +9,20 @@ SIMPLIFIER = "pysmt.simplifier.Simplifier"
 EXPLANATION = (
     "Static analysis of pysmt/simplifier.py: exhaustive operator dispatch of Simplifier (R1); "
     "exact arithmetic on folding paths - no float()/math.*/float literals (R5); no call path from a "
-    "handler to a symbol-creating constructor (R9); further rules (rebuild agreement, extracted "
-    "rewrite rules vs identity tables, constant folds vs operator semantics, result sorts) are "
-    "decided by the abstract interpreter, see rules R2/R3/R4/R6/R7/R8 in the evidence.  Two real environments: the simplifier of the second (quantifier pruning included) answers the same whether or not the first worked on nodes with the same ids (R6).")
+    "handler to a symbol-creating constructor (R9).  Abstract interpretation: every handler is interpreted on "
+    "operand configurations (constant vs symbol vs same operand vs negated / nested operand; all Boolean, arithmetic, "
+    "bit-vector operators incl. the signed ones, constants symbolic; bit-string folds at widths 1-4; string folds): "
+    "each extracted rewrite rule / constant fold is valid against the independent reference semantics over small "
+    "domains (R3), no handler raises on well-typed operands (R3r), the result has the sort of the formula (R8).  "
+    "Array folds on ~150 terms: constant arrays with explicit entries, stores / selects at constant and symbolic "
+    "indices, equalities between array values over Int and over finite index sorts, bound variables that occur only "
+    "inside an array value, two simplifications in one environment (R4).  Two real environments: the simplifier of the "
+    "second (quantifier pruning included) answers the same whether or not the first worked on nodes with the same ids "
+    "(R6).")
 NOT_DECIDED = [
-    "equivalence of the sum/product normalisation loops of walk_plus/walk_times",
-    "quantifier pruning beyond provenance of the kept variable set",
-    "string folds other than the index-discipline rule; array-value folds",
-    "anything quantified over interpretations as such",
+    "operand configurations and array terms outside the menus (the evidence lists them)",
+    "arithmetic shift right at symbolic width; quantifier pruning beyond the skeletons of R3 / R6",
+    "anything quantified over interpretations as such: values are compared over small domains per extracted rule",
 ]
 
 # functions of the math module that are exact on int / Fraction operands
